@@ -176,7 +176,7 @@ def shrink_text(pred: Callable[[str], bool], s: str, budget: int = 400) -> str:
 # =============================================================================================== correspondence
 def corr_writer_reader(ck: Ck) -> None:
     rng = ck.rng
-    n_long, n_short = ck.budget(10, 120), ck.budget(160, 1500)
+    n_long, n_short = ck.budget(8, 120), ck.budget(110, 1500)
     corpus = [(True, '\t', ''), (False, '\t', ''), (True, '\t', 'q' * 999 + '"zz'), (False, '\t\t', 'q' * 999 + '\nzz'),
               (True, '\t', 'q' * 998 + '\\' + 'z'), (True, '', 'a b ' * 300), (True, '\t', ('w' * 130 + '\n') * 9),
               (False, '\t', 'x' * 1001), (True, '\t', 'x' * 1000), (True, '\t', ' ' + 'y' * 1500)]
@@ -744,7 +744,7 @@ def corr_lines(ck: Ck) -> None:
     _SDEF_LINES.clear()
     w_kv, p_kv, w_io, p_io, w_res, p_res = [], [], [], [], [], []
     one = lambda x: [x]   # noqa: E731
-    for i in range(ck.budget(70, 600)):
+    for i in range(ck.budget(54, 600)):
         plain = i % 3 == 2
         custom = not plain
         label = rng.random() < 0.5
@@ -784,7 +784,7 @@ def corr_lines(ck: Ck) -> None:
                 want = 'Some (%s, %d)' % (kv_line_literal(lt, obj, tg, one, one), left)
             p_kv.append((coq_s(t2[0][1]), t2[1:], want))
             ck.count('corr_lines_kv_parse')
-    for i in range(ck.budget(40, 300)):
+    for i in range(ck.budget(27, 300)):
         plain = i % 3 == 2
         typ = rng.choice(list(ValueTypes))
         if typ.has_list:
@@ -806,7 +806,7 @@ def corr_lines(ck: Ck) -> None:
             p_io.append((t2, want))
             ck.count('corr_lines_io_parse')
     restypes = list(F.RESTYPE_TO_NAME)
-    for i in range(ck.budget(30, 200)):
+    for i in range(ck.budget(20, 200)):
         e = EntityDef(EntityTypes.POINT, 'c16_ent')
         kind = i % 4
         if kind == 0:
@@ -851,7 +851,7 @@ def corr_lines(ck: Ck) -> None:
     # ---- whole entity bodies: several keyvalue lines (tagged variants of one key too), inputs, outputs, resources
     w_body, p_body = [], []
     iolit = lambda o_, tg, secs: 'mk_iol N %s %s %d %s' % (coq_s(o_.name), coq_secs(sorted(tg)), lt.vt_index[o_.type], coq_secs(secs(o_.desc)))   # noqa: E731
-    for i in range(ck.budget(16, 120)):
+    for i in range(ck.budget(12, 120)):
         plain = i % 3 == 2
         custom, label = not plain, rng.random() < 0.5
         e = EntityDef(EntityTypes.POINT, 'c16_ent')
